@@ -208,11 +208,16 @@ where
         match self.paused_animation.as_ref() {
             Some((paused_state, paused_position)) if state == paused_state => {
                 self.state_duration = *paused_position;
+                self.paused_animation = None;
             }
             _ => {
                 let was_animating = self.timelines.get(&self.current_state).is_some();
                 let will_animate = self.timelines.get(state).is_some();
-                if was_animating && !will_animate {
+                if will_animate {
+                    // A different animation takes over; the interrupted one must blend afresh if
+                    // its state is entered again later.
+                    self.paused_animation = None;
+                } else if was_animating {
                     self.paused_animation = Some((self.current_state.clone(), self.state_duration));
                 }
                 self.blend_next_timeline(state);
